@@ -148,11 +148,14 @@ Outcome RunScenario(const std::vector<uint8_t>& bytes, uint64_t salt, Stats& st_
 
     bool variant_received_before_G = false; // a variant reached the node while G was not yet in the pool
     bool variant_was_orphan = false;
+    bool stripped_orphan_delivered = false; // a witness-stripped copy reached the node while G's parent was unknown (it is then stored as an orphan)
+    bool p_confirmed = false;
     unsigned stalls = 0;
     size_t cursor = 0; // log position up to which getdata messages have been answered
     int64_t elapsed = 0;
 
     auto in_pool = [&](const CTransactionRef& t) { return t && sim.mempool().exists(t->GetWitnessHash()); };
+    auto parent_known = [&]() { return !has_parent || p_confirmed || in_pool(P); };
 
     // Answer the node's getdata messages: honest peers promptly with the genuine tx (if they hold it), attackers per their script.
     std::function<void()> answer_requests = [&]() {
@@ -181,13 +184,14 @@ Outcome RunScenario(const std::vector<uint8_t>& bytes, uint64_t salt, Stats& st_
                     // attacker: asked for a variant's wtxid or (orphan resolution) for a txid
                     unsigned beh = s.range<unsigned>(0, 3);
                     CTransactionRef v;
-                    for (auto& [k, var] : variants) if (inv.IsMsgWtx() ? var->GetWitnessHash().ToUint256() == inv.hash : var->GetHash().ToUint256() == inv.hash) { v = var; if (s.boolean()) break; }
+                    VK vk = VK::EXTRA_ITEM;
+                    for (auto& [k, var] : variants) if (inv.IsMsgWtx() ? var->GetWitnessHash().ToUint256() == inv.hash : var->GetHash().ToUint256() == inv.hash) { v = var; vk = k; if (s.boolean()) break; }
                     if (beh == 0 || !v) { stalls++; st.cls("attacker-stalls"); st.note("attacker peer", p, " stalls"); }
                     else if (beh == 1) { net.Send(p, NetMsgType::NOTFOUND, std::vector<CInv>{inv}); st.note("attacker peer", p, " notfound"); }
                     else {
                         if (!in_pool(G)) variant_received_before_G = true;
-                        if (has_parent && !in_pool(P)) variant_was_orphan = true;
-                        st.note("attacker peer", p, " answers with a variant");
+                        if (!parent_known()) { variant_was_orphan = true; if (vk == VK::STRIPPED) stripped_orphan_delivered = true; }
+                        st.note("attacker peer", p, " answers with variant ", VKName(vk));
                         net.SendRaw(p, NetMsgType::TX, SerTx(*v));
                     }
                 }
@@ -211,7 +215,7 @@ Outcome RunScenario(const std::vector<uint8_t>& bytes, uint64_t salt, Stats& st_
             if (net.Disconnected(m) || variants.empty()) continue;
             auto& [k, v] = variants[s.index(variants.size())];
             if (!in_pool(G)) variant_received_before_G = true;
-            if (has_parent && !in_pool(P)) { variant_was_orphan = true; st.cls("variant-while-parent-unknown"); }
+            if (!parent_known()) { variant_was_orphan = true; st.cls("variant-while-parent-unknown"); if (k == VK::STRIPPED) stripped_orphan_delivered = true; }
             net.SendRaw(m, NetMsgType::TX, SerTx(*v));
             st.note("attacker peer", m, " sends variant ", VKName(k)); st.cls(std::string("variant-delivered:") + VKName(k)); st.mix(uint64_t(20 + int(k)));
         } else if (sel < 52) { // attacker sends the (valid) child: G becomes a missing parent that is fetched by txid -- from the attacker
@@ -248,6 +252,7 @@ Outcome RunScenario(const std::vector<uint8_t>& bytes, uint64_t salt, Stats& st_
             }
             auto b = sim.Build(spec);
             auto d = sim.Deliver(b);
+            if (!spec.txs.empty() && d.processed) p_confirmed = true;
             st.note("block ", d.processed ? "connected" : "REJECTED"); st.cls("block"); st.mix(uint64_t(41));
         } else if (sel < 92) { // one-block reorg of an empty tip (confirmed-filter reset)
             uint256 tip = sim.TipHash();
@@ -277,7 +282,12 @@ Outcome RunScenario(const std::vector<uint8_t>& bytes, uint64_t salt, Stats& st_
 
     // ---------------------------------------------------------------- closing phase
     const bool g_in_pool_before_closing = in_pool(G);
-    const bool mode_b = !g_in_pool_before_closing && !in_pool(C) && s.chance(110);
+    // Mode B is not used after a witness-stripped copy was stored as an orphan: in that state the unchanged code treats G's txid as already
+    // known (the stripped orphan's wtxid equals G's txid), so G is never fetched as a missing parent. That behaviour is asserted separately by
+    // the target c64_stripped_orphan (suspected genuine defect, reported to the coordinator); here it is excluded by construction.
+    const bool want_b = s.chance(110);
+    const bool mode_b = !g_in_pool_before_closing && !in_pool(C) && want_b && !stripped_orphan_delivered;
+    if (want_b && stripped_orphan_delivered && !g_in_pool_before_closing && primary) st.cls("mode-B-skipped-stripped-orphan");
     int h = honest[s.index(honest.size())];
     knows[h].insert(G->GetWitnessHash().ToUint256());
     if (has_parent) knows[h].insert(P->GetWitnessHash().ToUint256());
@@ -348,5 +358,88 @@ VERIF_TARGET(c64_malleated, nullptr, 40, 400,
         if (again >= 3 && st.want_sample) fprintf(stderr, "DECODED-FAILING-CASE %s\n", st.sample.c_str());
         VCHECK(again < 3, "c64.genuine-censored", o.what, "(reproduced under 3 re-saltings)");
         st.cls("suspect-not-reproduced");
+    }
+}
+
+
+// ---------------------------------------------------------------------------------------------------------------------
+// Deterministic three-way probe of one mechanism (not part of the registered tiers; see corpus/C64/SENSITIVITY.md):
+//   index 0: control -- an honest peer announces the child C of G; G and its parent P are fetched as missing parents and all enter the pool
+//   index 1: before that, an attacker sends an invalid-witness copy of G (extra stack item) while P is unknown (the copy becomes an orphan)
+//   index 2: the same with a witness-STRIPPED copy, whose wtxid equals G's txid
+VERIF_TARGET(c64_stripped_orphan, nullptr, 0, 8,
+             "three fixed scenarios (control / invalid-witness orphan copy / witness-stripped orphan copy) followed by an honest announcement of G's child; G must be "
+             "fetched as missing parent and accepted")
+{
+    verif::set_enum_total(3);
+    int64_t idx = verif::enum_index();
+    if (idx < 0) idx = s.range<int>(0, 2);
+    if (idx > 2) return;
+    auto simp = std::make_unique<ChainSim>(ChainSimOpts{});
+    ChainSim& sim = *simp;
+    sim.LoadBase(112);
+    NetSim net(sim, NetSimOpts{});
+    PeerSpec ps;
+    ps.conn = ConnectionType::INBOUND;
+    int h = net.AddPeer(ps), m = net.AddPeer(ps);
+    bool ok = net.Handshake(h) && net.Handshake(m);
+    assert(ok);
+    std::pair<COutPoint, RefCoin> coin;
+    {
+        RefReplay r = sim.ledger.Replay(sim.TipHash());
+        int next_h = sim.TipHeight() + 1;
+        for (auto& [op, c] : r.utxo) if (c.coinbase && c.spk == P2WSH_OP_TRUE && next_h - c.height >= 100) { coin = {op, c}; break; }
+    }
+    CTransactionRef P = MakeTransactionRef(sim.MakeTx({coin}, {CTxOut(coin.second.value - 30000, P2WSH_OP_TRUE)}));
+    RefCoin pc{P->vout[0].nValue, P2WSH_OP_TRUE, 0, false};
+    CTransactionRef G = MakeTransactionRef(sim.MakeTx({{COutPoint(P->GetHash(), 0), pc}}, {CTxOut(pc.value - 40000, P2WSH_OP_TRUE)}));
+    RefCoin gc{G->vout[0].nValue, P2WSH_OP_TRUE, 0, false};
+    CTransactionRef C = MakeTransactionRef(sim.MakeTx({{COutPoint(G->GetHash(), 0), gc}}, {CTxOut(gc.value - 50000, P2WSH_OP_TRUE)}));
+    auto in_pool = [&](const CTransactionRef& t) { return sim.mempool().exists(t->GetWitnessHash()); };
+    if (idx > 0) {
+        CTransactionRef v = MakeVariant(G, idx == 1 ? VK::EXTRA_ITEM : VK::STRIPPED);
+        assert(v->GetHash() == G->GetHash() && v->GetWitnessHash() != G->GetWitnessHash());
+        net.SendRaw(m, NetMsgType::TX, SerTx(*v));
+        st.note("attacker sends ", idx == 1 ? "extra-item" : "stripped", " copy of G while its parent is unknown");
+    }
+    net.TickAll();
+    size_t cursor = net.Mark();
+    net.Send(h, NetMsgType::INV, std::vector<CInv>{CInv(MSG_WTX, C->GetWitnessHash().ToUint256())});
+    st.note("honest peer announces child C");
+    bool g_requested = false;
+    int64_t waited = 0;
+    auto serve = [&]() {
+        for (int guard = 0; guard < 20 && cursor < net.Log().size(); ++guard) {
+            size_t end = net.Log().size();
+            std::vector<CInv> todo;
+            for (size_t i = cursor; i < end; ++i) {
+                const SentMsg& sm = net.Log()[i];
+                if (sm.type == NetMsgType::GETDATA && sm.peer == h) for (const CInv& inv : NetSim::DecodeInvs(sm)) if (inv.IsGenTxMsg()) todo.push_back(inv);
+            }
+            cursor = end;
+            for (auto& inv : todo) {
+                for (auto& t : {P, G, C}) {
+                    if (inv.IsMsgWtx() ? t->GetWitnessHash().ToUint256() == inv.hash : t->GetHash().ToUint256() == inv.hash) {
+                        if (t == G) g_requested = true;
+                        st.note("honest serves ", t == G ? "G" : t == P ? "P" : "C");
+                        net.SendRaw(h, NetMsgType::TX, SerTx(*t));
+                    }
+                }
+            }
+        }
+    };
+    serve();
+    while (!in_pool(G) && waited < 12 + 64) { net.Advance(2); waited += 2; net.TickAll(); serve(); }
+    st.steps++;
+    st.note("waited ", waited, "s: G requested=", g_requested, " G in pool=", in_pool(G), " C in pool=", in_pool(C));
+    st.cls(idx == 0 ? "probe-control" : idx == 1 ? "probe-invalid-witness-orphan" : "probe-stripped-orphan");
+    st.mix(uint64_t(idx));
+    st.nontrivial = idx > 0;
+    if (idx < 2) {
+        VCHECK(in_pool(G) && in_pool(C), "c64.probe-control", "control scenario failed: G/C not accepted", "idx", idx, "requested", g_requested);
+    } else {
+        VCHECK(in_pool(G), "c64.stripped-orphan-masks-parent",
+               "after a witness-stripped copy of G was stored as an orphan, G is treated as already known and never fetched as the missing parent of its child;",
+               "G requested from the honest peer:", g_requested, "waited", waited, "s");
     }
 }
